@@ -408,8 +408,18 @@ where
     T: Sync + Serialize,
     F: Fn(&T) -> Result<CaseInfo, Fail> + Sync,
 {
+    enumerate_with(ctx, cases, test, threads())
+}
+
+/// `enumerate` with a given number of worker threads (1 = nothing else runs in the process
+/// meanwhile: for cases that look at process-wide state of the engine).
+pub fn enumerate_with<T, F>(ctx: &Ctx, cases: &[T], test: F, max_workers: usize)
+where
+    T: Sync + Serialize,
+    F: Fn(&T) -> Result<CaseInfo, Fail> + Sync,
+{
     let next = AtomicUsize::new(0);
-    let workers = threads().min(cases.len().max(1));
+    let workers = max_workers.max(1).min(cases.len().max(1));
     std::thread::scope(|s| {
         for _ in 0..workers {
             s.spawn(|| {
